@@ -6,4 +6,5 @@ cp /repo/go.sum go.sum
 mkdir -p /verif/bin /verif/evidence /verif/replay /verif/logs
 go build -tags verif -o /verif/bin/gw ./cmd/gw || exit 2
 go build -tags verif -o /verif/bin/vcheck ./cmd/vcheck || exit 2
+go build -race -tags verif -o /verif/bin/gw-race ./cmd/gw || exit 2
 echo setup ok
